@@ -1,6 +1,7 @@
 //! C06: signature completeness -- what any signing API signs, every verify API accepts.
 use std::io::{Read, Write};
 
+use pgp::crypto::hash::HashAlgorithm;
 use pgp::composed::{ArmorOptions, CleartextSignedMessage, Deserializable, DetachedSignature, KeyType, Message, MessageBuilder, SignedPublicKey, SignedSecretKey};
 use pgp::crypto::ecc_curve::ECCCurve;
 use pgp::ser::Serialize;
@@ -20,8 +21,14 @@ fn strings_over(alpha: &[u8], len: usize) -> Vec<Vec<u8>> {
 impl Ctx {
     /// all sign interfaces x all verify interfaces for one payload and key
     fn matrix(&mut self, key: &SignedSecretKey, text: bool, payload: &[u8], cls: &str) {
+        let h = key.primary_key.hash_alg();
+        self.matrix_h(key, text, payload, cls, h, false);
+    }
+
+    /// the same with a caller-chosen hash algorithm; `may_refuse`: a signing interface may decline the combination
+    /// (then nothing is claimed), but whatever it does sign must verify
+    fn matrix_h(&mut self, key: &SignedSecretKey, text: bool, payload: &[u8], cls: &str, hash: HashAlgorithm, may_refuse: bool) {
         let pk = SignedPublicKey::from(key.clone());
-        let hash = key.primary_key.hash_alg();
         let mut results: Vec<(String, bool)> = Vec::new();
         let mut detached: Vec<(&str, pgp::packet::Signature)> = Vec::new();
         // --- sign interfaces producing a bare signature
@@ -109,10 +116,11 @@ impl Ctx {
                 }
             }
         }
+        if may_refuse { results.retain(|(n, ok)| *ok || !n.starts_with("sign:")); }
         let failed: Vec<String> = results.iter().filter(|(_, ok)| !ok).map(|(n, _)| n.clone()).collect();
         let imp = if failed.is_empty() { format!("all {} ok", results.len()) } else { format!("FAILED {}", failed.join(",")) };
         // the model is asked for the canonical text: the digest paths are tied under C14/C11; here the predicate is the matrix
-        self.out.case(if text { "canon" } else { "" }, &if text { vec![hx(payload)] } else { vec![] }, &["matrix".into(), (text as u8).to_string(), hx(payload), hx(key.fingerprint().as_bytes())],
+        self.out.case(if text { "canon" } else { "" }, &if text { vec![hx(payload)] } else { vec![] }, &["matrix".into(), (text as u8).to_string(), hx(payload), hx(key.fingerprint().as_bytes()), u8::from(hash).to_string()],
             &if text { let c: Vec<u8> = { let mut o = Vec::new(); let mut p = false; for &b in payload { if b == 10 && !p { o.push(13); } o.push(b); p = b == 13; } o }; format!("{} {}", hx(&c), imp) } else { imp.clone() },
             Some(failed.is_empty()), cls);
     }
@@ -189,6 +197,15 @@ fn main() {
                 s.extend_from_slice(t);
                 let key = [&k_ed4, &k_ed6, &k_ec][i % 3];
                 cx.matrix(key, true, &s, "window-edge-text");
+            }
+        }
+    }
+    // caller-chosen hash algorithms (other than the key's preferred one): v6 salts follow the hash actually used
+    for (ki, key) in [&k_ed4, &k_ed6, &k_ec, &k_rsa, &k_448].into_iter().enumerate() {
+        for hash in [HashAlgorithm::Sha256, HashAlgorithm::Sha384, HashAlgorithm::Sha512, HashAlgorithm::Sha224, HashAlgorithm::Sha3_256, HashAlgorithm::Sha3_512] {
+            if ki == 3 && !thorough && !matches!(hash, HashAlgorithm::Sha512 | HashAlgorithm::Sha3_512) { continue; }
+            for text in [false, true] {
+                cx.matrix_h(key, text, b"hash sweep\r\nline\n", &format!("hash-sweep-{}", u8::from(hash)), hash, true);
             }
         }
     }
